@@ -350,7 +350,7 @@ pub fn run(tier: Tier) -> i32 {
     let mut run = Run::new("C18", tier, "exploration");
     let p = NoAlloc;
     run.replays("steady-state-allocations", &p);
-    run.generated("steady-state-allocations", &p, tier.pick(6_000, 200_000));
+    run.generated("steady-state-allocations", &p, tier.pick(40_000, 200_000));
     run.finish(
         RULE,
         &["allocations are seen through #[global_allocator]; other threads are excluded by the thread-local window", "full_seq()/owned_seq()/to_owned_record() allocate by contract and are not measured"],
